@@ -55,6 +55,12 @@ type c18case struct {
 	// FailDial: the connection to the second node is lost before the iteration and the next connect attempt to it
 	// is refused once; the client repeats a call that was answered with an error
 	FailDial bool `json:"fail_dial,omitempty"`
+	// ClusterDown: the k-th SCAN call is answered -CLUSTERDOWN by the node it addresses (the node just lost sight of
+	// the majority); the client repeats the call
+	ClusterDown int `json:"cluster_down_at_call,omitempty"`
+	// ReplicaHost (two chains): the service's host list is the first master and a replica of the second master - the
+	// second master itself is not a host of the service (SCAN covers the listed hosts, whatever their role)
+	ReplicaHost bool `json:"replica_host,omitempty"`
 }
 
 func c18run(cs c18case) (sig, detail string) {
@@ -83,8 +89,19 @@ func c18run(cs c18case) (sig, detail string) {
 			return
 		}
 		cl := cluster.New(n, 0, n)
+		hosts := cl.Nodes
+		if cs.ReplicaHost {
+			cl = cluster.New(2, 1, 2)
+			hosts = []*cluster.Node{cl.Masters()[0]}
+			for _, nd := range cl.Nodes {
+				if nd.MasterOf == cl.Masters()[1] {
+					hosts = append(hosts, nd)
+					break
+				}
+			}
+		}
 		want := map[string]bool{}
-		for i, node := range cl.Nodes {
+		for i, node := range hosts {
 			chain := cs.Chains[i]
 			node.ScanChain = map[string]cluster.ScanStep{}
 			cur := "0"
@@ -108,7 +125,11 @@ func c18run(cs c18case) (sig, detail string) {
 				cur = next
 			}
 		}
-		s := vfStartStack(cl, vfSvcConfig(0, nil, 0))
+		var seeds []string
+		if cs.ReplicaHost {
+			seeds = []string{hosts[0].Addr, hosts[1].Addr}
+		}
+		s := vfStartStack(cl, vfSvcConfig(0, nil, 0), seeds...)
 		c := s.NewClient("c0")
 		mark := len(cl.Log)
 		if cs.Pipelined {
@@ -177,10 +198,10 @@ func c18run(cs c18case) (sig, detail string) {
 			return
 		}
 		if cs.FailDial && n > 1 {
-			cl.Nodes[1].ResetConns()
+			hosts[1].ResetConns()
 			sched.WaitQuiescent()
 			refused := false
-			addr := cl.Nodes[1].Addr
+			addr := hosts[1].Addr
 			vnet.SetDialHook(func(a string) error {
 				if a == addr && !refused {
 					refused = true
@@ -211,10 +232,27 @@ func c18run(cs c18case) (sig, detail string) {
 				s.RefreshRound()
 			}
 			args := append([]string{"SCAN", cursor}, cs.Extra...)
+			var downNode *cluster.Node
+			if cs.ClusterDown > 0 && steps == cs.ClusterDown {
+				if cv, perr := strconv.ParseUint(cursor, 10, 64); perr == nil && int(cv>>48) < n {
+					downNode = hosts[cv>>48]
+					downNode.BadReplies = map[string][]byte{"scan": []byte("-CLUSTERDOWN The cluster is down\r\n")}
+				}
+			}
 			v, err := c.Do(args...)
+			if downNode != nil {
+				sched.WaitQuiescent()
+				downNode.BadReplies = nil
+			}
 			if err != nil {
 				sig, detail = "connection-failed", err.Error()
 				return
+			}
+			if v.Kind == '-' && downNode != nil && retries < 3 {
+				retries++ // the cluster was reported down: the client asks again with the same cursor
+				sched.WaitQuiescent()
+				s.RefreshRound()
+				continue
 			}
 			if v.Kind == '-' && cs.FailDial && retries < 3 {
 				retries++ // the node could not be reached: the client asks again with the same cursor
@@ -268,6 +306,9 @@ func c18run(cs c18case) (sig, detail string) {
 			if len(order) == 0 || order[len(order)-1] != e.Node {
 				order = append(order, e.Node)
 			}
+			if cs.ClusterDown > 0 && len(perNode[e.Node]) > 0 && perNode[e.Node][len(perNode[e.Node])-1] == e.Args[1] {
+				continue // the call that was answered -CLUSTERDOWN, repeated by the client with the same cursor
+			}
 			perNode[e.Node] = append(perNode[e.Node], e.Args[1])
 			if strings.Join(e.Args[2:], " ") != strings.Join(cs.Extra, " ") {
 				sig, detail = "scan-arguments-changed", fmt.Sprintf("client sent %v, node %s received %v", cs.Extra, e.Node, e.Args[2:])
@@ -278,7 +319,7 @@ func c18run(cs c18case) (sig, detail string) {
 			sig, detail = "node-revisited-or-skipped", fmt.Sprintf("visit order %v for %d nodes", order, n)
 			return
 		}
-		for i, node := range cl.Nodes {
+		for i, node := range hosts {
 			wantSeq := append([]string{"0"}, cs.Chains[i]...)
 			if strings.Join(perNode[node.ID], ",") != strings.Join(wantSeq, ",") {
 				sig, detail = "node-cursor-sequence-differs", fmt.Sprintf("node %s received cursors %v, its chain is %v", node.ID, perNode[node.ID], wantSeq)
@@ -346,6 +387,22 @@ func c18scan(env sched.Env) *sched.Report {
 		try(c18case{Chains: [][]string{long}})
 		try(c18case{Chains: [][]string{long, {"5"}}})
 		try(c18case{Chains: [][]string{{}, long}})
+	}
+	// the host list names a replica instead of its master
+	for _, a := range shapes[:6] {
+		for _, b := range shapes[:6] {
+			try(c18case{Chains: [][]string{a, b}, ReplicaHost: true})
+			try(c18case{Chains: [][]string{a, b}, ReplicaHost: true, Refresh: true})
+		}
+	}
+	// a call answered -CLUSTERDOWN by the node it addresses (the client repeats the call)
+	for _, a := range shapes[:6] {
+		for _, b := range shapes[:6] {
+			for k := 1; k <= 4; k++ {
+				try(c18case{Chains: [][]string{a, b}, ClusterDown: k})
+				try(c18case{Chains: [][]string{a, b, {"7"}}, ClusterDown: k})
+			}
+		}
 	}
 	// a refused connect to the node a call addresses (the client repeats the call)
 	for _, a := range shapes[:6] {
